@@ -16,33 +16,55 @@ From DD Require Names Enum Reset Addr.
 Import ListNotations.
 Open Scope string_scope.
 
-Definition pipeline_result (fuel : nat) (dev_name : string) (d0 : device) : string :=
+(* structured verdict; [pipeline_result] below is its printed form (what the correspondence compares) *)
+Inductive pverdict :=
+| PAccept
+| PReject (e : gen_error)
+| POneOf (l : list gen_error)      (* refs_validated iterates a map: which dangling ref is reported first is not modelled *)
+| PPanic (stage : string).
+
+Definition pipeline (fuel : nat) (dev_name : string) (d0 : device) : pverdict :=
   let d := Names.names_normalized d0 in
   match Names.names_unique d with
-  | Some e => "error:" ++ show_error e
+  | Some e => PReject e
   | None =>
   match Enum.enum_values_check_fixed d with
-  | Enum.VErr e => "error:" ++ show_error e
-  | Enum.VPanic => "panic:enum"
+  | Enum.VErr e => PReject e
+  | Enum.VPanic => PPanic "enum"
   | Enum.VOk =>
   let objs := preorder_objects (d_objects d) in
   match first_error (map (byte_order_check (d_config d)) objs) with
-  | Some e => "error:" ++ show_error e
+  | Some e => PReject e
   | None =>
   match Names.refs_candidates d with
-  | (_ :: _) as l => "oneof:" ++ String.concat ";" (map show_error l)
+  | (_ :: _) as l => POneOf l
   | [] =>
   match Reset.bos_pass d with
-  | RErr e => "error:" ++ show_error e
+  | RErr e => PReject e
   | ROk d1 =>
   match Reset.reset_pass d1 with
-  | Fail _ => "panic:reset"
-  | Ok (RErr e) => "error:" ++ show_error e
+  | Fail _ => PPanic "reset"
+  | Ok (RErr e) => PReject e
   | Ok (ROk _) =>
   match mapM bool_fields_object objs with
-  | RErr e => "error:" ++ show_error e
+  | RErr e => PReject e
   | ROk objs' =>
   match first_error (map bit_ranges_object objs') with
-  | Some e => "error:" ++ show_error e
-  | None => Addr.addr_pipeline true fuel dev_name d
-  end end end end end end end end.
+  | Some e => PReject e
+  | None =>
+  match Addr.addr_check true fuel dev_name d with
+  | Fail k => PPanic (Addr.show_outcome_kind k)
+  | Ok (Some e) => PReject e
+  | Ok None => PAccept
+  end end end end end end end end end.
+
+Definition show_pverdict (v : pverdict) : string :=
+  match v with
+  | PAccept => "ok"
+  | PReject e => "error:" ++ show_error e
+  | POneOf l => "oneof:" ++ String.concat ";" (map show_error l)
+  | PPanic s => "panic:" ++ s
+  end.
+
+Definition pipeline_result (fuel : nat) (dev_name : string) (d0 : device) : string :=
+  show_pverdict (pipeline fuel dev_name d0).
